@@ -1192,6 +1192,7 @@ func classify(in *oracleIn) snapClass {
 	cl := snapClass{coherent: true, idsStable: true, owned: true, canonNames: true,
 		oldNames: map[string]bool{}, ownerChanged: map[[2]string]bool{}, notOwned: map[[3]string]bool{}, respelled: map[string]bool{}}
 	p, sn := in.peer, in.service
+	lo := strings.ToLower
 	type nk = [2]string
 	nodeOf := map[string]NodeRow{}
 	instKey := map[nk]bool{}
@@ -1259,7 +1260,6 @@ func classify(in *oracleIn) snapClass {
 		}
 	}
 	// names that memdb holds to be the same (lower-cased keys) but that are spelled differently
-	lo := strings.ToLower
 	for _, i := range insts {
 		for _, n := range in.catBefore.Nodes {
 			if n.Peer == p && lo(n.Name) == lo(i.Node.Name) && n.Name != i.Node.Name {
@@ -1285,7 +1285,7 @@ func classify(in *oracleIn) snapClass {
 			for _, i := range insts {
 				if i.Node.ID == n.ID && !strings.EqualFold(i.Node.Name, n.Name) {
 					cl.rename = true
-					cl.oldNames[n.Name] = true
+					cl.oldNames[lo(n.Name)] = true
 				}
 			}
 		}
@@ -1293,7 +1293,7 @@ func classify(in *oracleIn) snapClass {
 	storedSvc := map[nk]SvcRow{}
 	for _, s := range in.catBefore.Svcs {
 		if s.Peer == p {
-			storedSvc[nk{s.Node, s.ID}] = s
+			storedSvc[nk{lo(s.Node), lo(s.ID)}] = s // a slot is what memdb holds it to be
 			if len(s.Ups) > 0 {
 				cl.storedUps = true
 			}
@@ -1306,20 +1306,20 @@ func classify(in *oracleIn) snapClass {
 		// check_ids_keep_owner
 		for _, i := range insts {
 			for _, k := range i.Chks {
-				if c.Node == i.Node.Name && c.ID == k.ID && k.SID != c.SID {
+				if lo(c.Node) == lo(i.Node.Name) && lo(c.ID) == lo(k.ID) && lo(k.SID) != lo(c.SID) {
 					cl.idsStable = false
-					cl.ownerChanged[[2]string{c.Node, c.ID}] = true
+					cl.ownerChanged[[2]string{lo(c.Node), lo(c.ID)}] = true
 				}
 			}
 		}
 		// slots_owned
 		for _, i := range insts {
-			if c.Node != i.Node.Name || !(c.SID == "" || c.SID == i.Svc.ID) {
+			if lo(c.Node) != lo(i.Node.Name) || !(c.SID == "" || lo(c.SID) == lo(i.Svc.ID)) {
 				continue
 			}
 			listed := false
 			for _, k := range i.Chks {
-				if k.ID == c.ID {
+				if lo(k.ID) == lo(c.ID) {
 					listed = true
 				}
 			}
@@ -1328,17 +1328,17 @@ func classify(in *oracleIn) snapClass {
 			}
 			ok := false
 			for _, j := range insts {
-				if j.Node.Name != i.Node.Name {
+				if lo(j.Node.Name) != lo(i.Node.Name) {
 					continue
 				}
-				z, has := storedSvc[nk{i.Node.Name, j.Svc.ID}]
-				if has && z.Name == sn && (c.SID == "" || j.Svc.ID == i.Svc.ID) {
+				z, has := storedSvc[nk{lo(i.Node.Name), lo(j.Svc.ID)}]
+				if has && strings.EqualFold(z.Name, sn) && (c.SID == "" || lo(j.Svc.ID) == lo(i.Svc.ID)) {
 					ok = true
 				}
 			}
 			if !ok {
 				cl.owned = false
-				cl.notOwned[[3]string{i.Node.Name, i.Svc.ID, c.ID}] = true
+				cl.notOwned[[3]string{lo(i.Node.Name), lo(i.Svc.ID), lo(c.ID)}] = true
 			}
 		}
 	}
@@ -1475,7 +1475,7 @@ func oracle(in *oracleIn, vip bool) (string, map[string]interface{}, map[string]
 		// 4. other services of the same peer keep their instances and service-level checks
 		if msg, node := samePeerFrame(in); msg != "" {
 			cause := "none"
-			if cl.oldNames[node] {
+			if cl.oldNames[strings.ToLower(node)] {
 				cause = "node-id-moves" // the row sat on a node that the store deleted because its ID moved
 			}
 			fails = append(fails, fail{msg, map[string]interface{}{"kind": "same-peer-frame", "cause": cause}})
@@ -1603,18 +1603,18 @@ func diffCause(cl snapClass, d vdiff) string {
 			return "node-locality-dropped"
 		}
 	case "missing-instance":
-		if cl.oldNames[d.node] {
+		if cl.oldNames[lo(d.node)] {
 			return "node-id-moves"
 		}
 	case "missing-check":
-		if cl.oldNames[d.node] {
+		if cl.oldNames[lo(d.node)] {
 			return "node-id-moves"
 		}
-		if cl.ownerChanged[[2]string{d.node, d.cid}] {
+		if cl.ownerChanged[[2]string{lo(d.node), lo(d.cid)}] {
 			return "check-owner-changes"
 		}
 	case "extra-check":
-		if cl.notOwned[[3]string{d.node, d.sid, d.cid}] {
+		if cl.notOwned[[3]string{lo(d.node), lo(d.sid), lo(d.cid)}] {
 			return "slot-not-owned"
 		}
 	}
@@ -1631,15 +1631,18 @@ func anyStoredUps(in *oracleIn) bool {
 }
 
 func samePeerFrame(in *oracleIn) (string, string) {
+	// slots, nodes and check ids are what memdb holds them to be (lower-cased keys): a received
+	// instance x1 on n1 IS the slot of a stored X1 on n1
+	lo := strings.ToLower
 	type nk = [2]string
 	slot := map[nk]bool{}
 	snapChk := map[nk]bool{}
 	snapNode := map[string]bool{}
 	for _, c := range in.nodes {
-		slot[nk{c.Node.Node, c.Service.ID}] = true
-		snapNode[c.Node.Node] = true
+		slot[nk{lo(c.Node.Node), lo(c.Service.ID)}] = true
+		snapNode[lo(c.Node.Node)] = true
 		for _, k := range c.Checks {
-			snapChk[nk{c.Node.Node, string(k.CheckID)}] = true
+			snapChk[nk{lo(c.Node.Node), lo(string(k.CheckID))}] = true
 		}
 	}
 	after := map[[3]string]SvcRow{}
@@ -1657,19 +1660,19 @@ func samePeerFrame(in *oracleIn) (string, string) {
 	other := map[nk]bool{}
 	hostsSn := map[string]bool{}
 	for _, s := range in.catBefore.Svcs {
-		if s.Peer == in.peer && s.Name == in.service {
-			hostsSn[s.Node] = true
+		if s.Peer == in.peer && strings.EqualFold(s.Name, in.service) {
+			hostsSn[lo(s.Node)] = true
 		}
 	}
 	for _, s := range in.catBefore.Svcs {
-		if s.Peer != in.peer || s.Name == in.service || slot[nk{s.Node, s.ID}] {
+		if s.Peer != in.peer || strings.EqualFold(s.Name, in.service) || slot[nk{lo(s.Node), lo(s.ID)}] {
 			continue
 		}
-		other[nk{s.Node, s.ID}] = true
+		other[nk{lo(s.Node), lo(s.ID)}] = true
 		if t, ok := after[[3]string{s.Peer, s.Node, s.ID}]; !ok || !reflect.DeepEqual(t, s) {
 			return fmt.Sprintf("same-peer-frame: instance %s/%s of service %s changed", s.Node, s.ID, s.Name), s.Node
 		}
-		if !snapNode[s.Node] {
+		if !snapNode[lo(s.Node)] {
 			for _, n := range in.catBefore.Nodes {
 				if n.Peer == in.peer && n.Name == s.Node {
 					if t, ok := afterN[[2]string{n.Peer, n.Name}]; !ok || t != n {
@@ -1680,7 +1683,7 @@ func samePeerFrame(in *oracleIn) (string, string) {
 		}
 	}
 	for _, c := range in.catBefore.Chks {
-		if c.Peer != in.peer || c.SID == "" || !other[nk{c.Node, c.SID}] || snapChk[nk{c.Node, c.ID}] {
+		if c.Peer != in.peer || c.SID == "" || !other[nk{lo(c.Node), lo(c.SID)}] || snapChk[nk{lo(c.Node), lo(c.ID)}] {
 			continue
 		}
 		if t, ok := afterC[[3]string{c.Peer, c.Node, c.ID}]; !ok || t != c {
@@ -1689,7 +1692,7 @@ func samePeerFrame(in *oracleIn) (string, string) {
 	}
 	// nodes that are not in the snapshot and host no instance of the service keep every row
 	for _, n := range in.catBefore.Nodes {
-		if n.Peer != in.peer || snapNode[n.Name] || hostsSn[n.Name] {
+		if n.Peer != in.peer || snapNode[lo(n.Name)] || hostsSn[lo(n.Name)] {
 			continue
 		}
 		if t, ok := afterN[[2]string{n.Peer, n.Name}]; !ok || t != n {
